@@ -34,6 +34,7 @@ CONSTANTS Kind,      \* "mps" | "sn"
           Ckpts,     \* kinds of checkpoints that are loaded, subset of Selection!CkptKinds
           Moves,     \* "all": a write may install any ranking matrix; "gen": only the neighbours of the current
                      \*        one under a generating set of moves (same reachable states, fewer edges)
+          CtorOpts,  \* "all": every combination of the constructor's hard / gumbel / disable flags; "default": none set
           InitAlpha, \* "ctor": coefficients as left by the constructor; "any": every ranking matrix
           AllowKF    \* TRUE: the named deviations KF_* are admitted by the invariants
 
@@ -53,6 +54,7 @@ Init ==
     \E r0 \in Rankings(N), rk \in RankMatrices, hard \in BOOLEAN, gum \in BOOLEAN, dis \in BOOLEAN, t \in Temps,
        sel \in BOOLEAN :
         /\ (Kind = "sn" => ~dis)
+        /\ (CtorOpts = "default" => ~hard /\ ~gum /\ ~dis)
         \* a SuperNetCombiner is built with frozen coefficients (warm-up); everything else with trainable ones
         /\ (sel \/ (Kind = "sn" /\ Ctor = "bare" /\ SelHows # {}))
         /\ IF Kind = "sn" \/ InitAlpha = "ctor"
